@@ -274,3 +274,15 @@ def lax_scan(eng, st, args, kwargs, e):
         res_ys = VNone()
     st.trace.append(f"L{line}:{tag}.exit")
     return VTuple([cL, res_ys])
+
+
+def np_arange(eng, st, args, kwargs, e):
+    """np.arange(lo, hi) for integers: the sequence lo, lo+1, ..., hi-1 (documented)."""
+    import z3 as _z3
+    lo = eng.num(args[0]) if len(args) > 1 else _z3.IntVal(0)
+    hi = eng.num(args[1]) if len(args) > 1 else eng.num(args[0])
+    n = _z3.If(hi > lo, hi - lo, 0)
+    arr = fresh("arange", _z3.ArraySort(INT, INT))
+    k = fresh("k", INT)
+    st.assume(_z3.ForAll([k], _z3.Implies(_z3.And(0 <= k, k < n), _z3.Select(arr, k) == lo + k), patterns=[_z3.Select(arr, k)]))
+    return VSeq(arr, _z3.simplify(n), "int")
